@@ -273,19 +273,10 @@ Proof.
     + cbn [tracks]. apply T_cons_passive; [exact I|]. apply T_passive. apply Forall_app_intro; assumption.
 Qed.
 
-Lemma T_retain_closure : forall m c,
-  T m (snd (match sm_get (m_cl m) c with
-            | Some co => (mkMach (sm_set (m_cl m) c (mkObj (orc co + 1) (oclosed co) (odata co))) (m_hp m),
-                          [ev SC ERetain c (Some (orc co + 1))])
-            | None => (m, [])
-            end))
-      (fst (match sm_get (m_cl m) c with
-            | Some co => (mkMach (sm_set (m_cl m) c (mkObj (orc co + 1) (oclosed co) (odata co))) (m_hp m),
-                          [ev SC ERetain c (Some (orc co + 1))])
-            | None => (m, [])
-            end)).
+Lemma T_retain_closure : forall m c m' evs, retain_closure m c = (m', evs) -> T m evs m'.
 Proof.
-  intros m c. destruct (sm_get (m_cl m) c) as [co|] eqn:Hc; cbn [fst snd]; [|apply T_nil].
+  intros m c m' evs H. unfold retain_closure in H.
+  destruct (sm_get (m_cl m) c) as [co|] eqn:Hc; inversion H; subst; clear H; [|apply T_nil].
   apply T_one; intros x Hx. unfold mstep in Hx. cbn [e_store e_op e_key e_rc ev get_store] in Hx.
   rewrite Hc in Hx. destruct ((1 <=? orc co) && orc_eqb (Some (orc co + 1)) (orc co + 1)); inversion Hx; reflexivity.
 Qed.
@@ -297,27 +288,17 @@ Proof.
   destruct (try_get_heap_backed_closure m raw) as [hb e1]. cbn [snd] in Hp1.
   destruct hb as [[hk ck]|].
   - destruct (heap_retain_ev m hk) as [m1 e2] eqn:Hh.
-    pose proof (T_retain_closure m1 ck) as Hrc.
-    destruct (match sm_get (m_cl m1) ck with
-              | Some co => (mkMach (sm_set (m_cl m1) ck (mkObj (orc co + 1) (oclosed co) (odata co))) (m_hp m1),
-                            [ev SC ERetain ck (Some (orc co + 1))])
-              | None => (m1, [])
-              end) as [m2 e3]. cbn [fst snd] in Hrc.
+    destruct (retain_closure m1 ck) as [m2 e3] eqn:Hrc.
     inversion H; subst; clear H.
     apply T_cons_passive; [exact I|]. eapply T_app; [apply T_passive; exact Hp1|].
-    eapply T_app; [eapply T_heap_retain_ev; eauto|exact Hrc].
+    eapply T_app; [eapply T_heap_retain_ev; eauto|eapply T_retain_closure; eauto].
   - pose proof (probe_direct_passive m raw) as Hp2.
     destruct (try_get_direct_closure m raw) as [d e2]. cbn [snd] in Hp2.
     destruct d as [ck|].
-    + pose proof (T_retain_closure m ck) as Hrc.
-      destruct (match sm_get (m_cl m) ck with
-                | Some co => (mkMach (sm_set (m_cl m) ck (mkObj (orc co + 1) (oclosed co) (odata co))) (m_hp m),
-                              [ev SC ERetain ck (Some (orc co + 1))])
-                | None => (m, [])
-                end) as [m2 e3]. cbn [fst snd] in Hrc.
+    + destruct (retain_closure m ck) as [m2 e3] eqn:Hrc.
       inversion H; subst; clear H.
       apply T_cons_passive; [exact I|]. eapply T_app; [apply T_passive; exact Hp1|].
-      eapply T_app; [apply T_passive; exact Hp2|exact Hrc].
+      eapply T_app; [apply T_passive; exact Hp2|eapply T_retain_closure; eauto].
     + inversion H; subst; clear H.
       apply T_cons_passive; [exact I|]. apply T_passive. apply Forall_app_intro; assumption.
 Qed.
